@@ -39,6 +39,21 @@ func (o unmarshalOptions) Options() proto.UnmarshalOptions {
 	}
 }
 
+// unmarshalState unmarshals a nested message through the proto package
+// (used for message types that have no table-driven coder, and for
+// message-typed extension fields and map values), handing the remaining
+// recursion budget on to it so that RecursionLimit bounds the whole tree.
+func (o unmarshalOptions) unmarshalState(in protoiface.UnmarshalInput) (protoiface.UnmarshalOutput, error) {
+	if o.depth <= 0 {
+		// No level is left for the nested message. (A zero
+		// proto.UnmarshalOptions.RecursionLimit would select the default limit.)
+		return protoiface.UnmarshalOutput{}, errRecursionDepth
+	}
+	opts := o.Options()
+	opts.RecursionLimit = o.depth
+	return opts.UnmarshalState(in)
+}
+
 func (o unmarshalOptions) DiscardUnknown() bool {
 	return o.flags&protoiface.UnmarshalDiscardUnknown != 0
 }
